@@ -237,6 +237,22 @@ def named_family():
         {"name": "n", "type": "int", "default": 1}]}
     out.append({"type": "array", "items": copy.deepcopy(shop)})
     out.append({"type": "map", "values": ["null", copy.deepcopy(shop)]})
+    # the same with the null-namespace enum as a SIBLING of the null-namespace record that refers to it by bare name
+    shop2 = {"type": "record", "name": "Outer", "namespace": "shop", "fields": [
+        {"name": "kind", "type": {"type": "enum", "name": "Kind", "namespace": "", "symbols": ["A", "B", "C"]}},
+        {"name": "item", "type": {"type": "record", "name": "Item", "namespace": "", "fields": [{"name": "kind", "type": "Kind"}, {"name": "n", "type": "long"}]}},
+        {"name": "fx", "type": {"type": "fixed", "name": "Fx", "namespace": "", "size": 1}},
+        {"name": "inner", "type": {"type": "record", "name": "Inner", "namespace": "", "fields": [{"name": "f", "type": "Fx"}, {"name": "i", "type": ["null", "Item"]}]}}]}
+    out.append({"type": "array", "items": copy.deepcopy(shop2)})
+    out.append({"type": "map", "values": copy.deepcopy(shop2)})
+    out.append(copy.deepcopy(shop2))
+    # record fields whose union holds a string branch next to a float/double branch (number-like words are strings)
+    out.append(rec("R", ["string", "double"], ["null", "string", "float"], ["double", "string"]))
+    # record branches that differ only in the item type of an array field (an item-wise check must look at every item)
+    narrow = {"type": "record", "name": "Narrow", "fields": [{"name": "vals", "type": {"type": "array", "items": "int"}}]}
+    wide = {"type": "record", "name": "Wide", "fields": [{"name": "vals", "type": {"type": "array", "items": "long"}}]}
+    out.append([copy.deepcopy(narrow), copy.deepcopy(wide)])
+    out.append(rec("R", ["null", copy.deepcopy(narrow), copy.deepcopy(wide)]))
     # {"type": "int"}-style wrapped primitives
     out.append(rec("R", {"type": "int"}, {"type": "string"}, {"type": "null"}))
     out.append({"type": "array", "items": {"type": "long"}})
